@@ -17,10 +17,23 @@
 //	                                   + packet decoder -> ok p=T:<hex>... end=closed|err
 //	gnm frag=<hex>,<hex>,...           raw fragments through GetNextMessage -> ok m=<hex>... end=closed|err
 //	zrt n=N mode=raw|msg               N-byte compressible payload: Deflate/Inflate, or Encode(compression)/Decode -> ok out=M eq=0|1
+//	mchain comp=C cut=<..> m=T:ID:<route>:<data>:E:<defl> ...   the whole path: Encode each message, frame as Data packets, the
+//	                                   stream in fragments through the real GetNextMessage, packet Decode, message.Decode of every
+//	                                   body; ALL decoded messages are held and rendered only at the end -> ok m=T:ID:<route>:<data>:E ... end=
+//	rtd typ= id= route= data= err= comp= defl= key=<hex> code=N   Encode, THEN SetDictionary({key: code}), then Decode -> ok <hex> | ok|dup | <decoded>
+//	enc2 typ= id= route= data= err= comp= defl= defl2=   Encode the SAME *Message twice -> ok <hex1> | ok <hex2> | <Decode of hex2>
+//	crl p=T:<hex>... cut=<a,b,..>      encoder frames cut into fragments, read by the real pomelonet/client.readPackets (one
+//	                                   accumulating bytes.Buffer); packets are queued, rendered when returned and again at the end
+//	                                   -> "<as returned> | <at the end>"
+//	sscr comp=C hsok=<hex>,.. <tok>...   new ClientSession in state Start and a SCRIPT of frames staged (tok: hs=<json hex> handshake
+//	                                   frame | ack | hb | m=T:ID:<route>:<data>:E:<defl> message encoded + framed as Data | f=<hex> raw bytes
+//	                                   handed over by GetNextMessage, any number of packets or garbage) -> working; `sgo` runs it ->
+//	                                   delivered ... ; delivered ... ; closed|open      (hsok: the handshake bodies encoding/json accepts)
 //	<harness-exit ...>                 (replays only) the process died here: runs the staged session
 package c06
 
 import (
+	"encoding/json"
 	"errors"
 	"fmt"
 	"io"
@@ -37,6 +50,7 @@ import (
 	"github.com/dfklegend/cell2/node/builtin/msgs"
 	"github.com/dfklegend/cell2/node/client/impls"
 	"github.com/dfklegend/cell2/node/client/impls/pomelo"
+	pclient "github.com/dfklegend/cell2/pomelonet/client"
 	cs "github.com/dfklegend/cell2/node/client/session"
 	"github.com/dfklegend/cell2/pomelonet/common/conn/codec"
 	"github.com/dfklegend/cell2/pomelonet/common/conn/message"
@@ -56,6 +70,15 @@ func exact(b []byte) []byte {
 	c := make([]byte, len(b), len(b))
 	copy(c, b)
 	return c
+}
+
+// recycle overwrites a buffer the harness handed to the PACKET decoder, as a caller with a pooled or
+// accumulating read buffer does once Decode has returned (pomelonet/client.readPackets reuses one
+// bytes.Buffer): packets that were returned must not change with it.
+func recycle(b []byte) {
+	for i := range b {
+		b[i] ^= 0xa5
+	}
 }
 
 func showMsg(m *message.Message) string {
@@ -208,9 +231,10 @@ func (r *ownerRec) OnSessionAdd(fs *cs.FrontSession)    { r.added++ }
 func (r *ownerRec) OnSessionRemove(fs *cs.FrontSession) { r.removed++ }
 
 type staged struct {
-	c    *sconn
-	s    *session.ClientSession
-	data []byte
+	c      *sconn
+	s      *session.ClientSession
+	data   []byte
+	script [][]byte // non-nil: frames of an `sscr` op (the session is still in StatusStart)
 }
 
 type sessEnv struct {
@@ -325,12 +349,63 @@ func (e *sessEnv) stage(data []byte) string {
 	return "working"
 }
 
+// stageScript opens a session and stages a script of frames; nothing is fed yet
+func (e *sessEnv) stageScript(frames [][]byte) string {
+	if e.cur != nil {
+		e.finish(e.cur)
+		e.cur = nil
+	}
+	c := newSconn()
+	s := session.NewClientSession(c, e.cfg)
+	s.Handle()
+	st := &staged{c: c, s: s, script: append([][]byte{}, frames...)}
+	if st.script == nil {
+		st.script = [][]byte{}
+	}
+	if r := c.wait(); r != "asked" {
+		e.drain()
+		e.finish(st)
+		return "open-" + r
+	}
+	e.drain()
+	e.cur = st
+	return "working"
+}
+
+// runScript feeds the staged frames one by one; the owner's events in order, then closed | open
+func (e *sessEnv) runScript(st *staged) string {
+	e.rec.ev = nil
+	want := e.rec.removed + 1
+	for _, f := range st.script {
+		st.c.in <- frameItem{data: f}
+		r := st.c.wait()
+		e.drain()
+		switch r {
+		case "timeout":
+			return "timeout"
+		case "closed":
+			if !e.awaitRemove(want) {
+				return "timeout"
+			}
+			return strings.Join(append(append([]string{}, e.rec.ev...), "closed"), " ; ")
+		}
+	}
+	out := append(append([]string{}, e.rec.ev...), "open")
+	if !e.finish(st) {
+		return "timeout"
+	}
+	return strings.Join(out, " ; ")
+}
+
 func (e *sessEnv) run() string {
 	st := e.cur
 	if st == nil {
 		return "none"
 	}
 	e.cur = nil
+	if st.script != nil {
+		return e.runScript(st)
+	}
 	e.rec.ev = nil
 	want := e.rec.removed + 1
 	f := e.frame(packet.Data, st.data)
@@ -527,16 +602,23 @@ func exec(op string) string {
 		// again after the second call (the kept packets, not copies)
 		return hx.Guard(func() string {
 			d := codec.NewPomeloPacketDecoder()
-			pa, ea := d.Decode(exact(hx.KVHex(ws, "a")))
+			ina, inb := exact(hx.KVHex(ws, "a")), exact(hx.KVHex(ws, "b"))
+			pa, ea := d.Decode(ina)
 			r1 := showDec(pa, ea)
-			pb, eb := d.Decode(exact(hx.KVHex(ws, "b")))
-			return r1 + " | " + showDec(pb, eb) + " | " + showDec(pa, ea)
+			recycle(ina) // the caller's read buffer is reused
+			pb, eb := d.Decode(inb)
+			r2 := showDec(pb, eb)
+			recycle(inb)
+			return r1 + " | " + r2 + " | " + showDec(pa, ea)
 		})
 	case "pdecs":
 		return hx.Guard(func() string {
-			ps, err := sharedDec.Decode(exact(hx.KVHex(ws, "data")))
+			in := exact(hx.KVHex(ws, "data"))
+			ps, err := sharedDec.Decode(in)
 			pushKept(kept{ps, err})
-			return showDec(ps, err)
+			r := showDec(ps, err)
+			recycle(in)
+			return r
 		})
 	case "pchk":
 		return hx.Guard(func() string {
@@ -622,6 +704,193 @@ func exec(op string) string {
 				}
 			}
 			return fmt.Sprintf("ok out=%d eq=%d", len(back), hx.B2i(string(back) == string(data)))
+		})
+	case "mchain":
+		// sender: message Encode + packet Encode of every message, one byte stream; receiver: GetNextMessage
+		// over the fragmented stream, packet Decode of every frame, message.Decode of every Data body.
+		// Every decoded *Message is HELD until the whole stream was read and rendered only then.
+		return hx.Guard(func() string {
+			enc := &message.MessagesEncoder{DataCompression: hx.KVInt(ws, "comp") == 1}
+			var all []byte
+			for _, w := range ws[1:] {
+				if !strings.HasPrefix(w, "m=") {
+					continue
+				}
+				f := strings.Split(w[2:], ":")
+				if len(f) != 6 {
+					return "bad-op"
+				}
+				var typ int
+				var id uint64
+				fmt.Sscanf(f[0], "%d", &typ)
+				fmt.Sscanf(f[1], "%d", &id)
+				m := &message.Message{Type: message.Type(typ), ID: uint(id), Route: string(hx.KVHex([]string{"x=" + f[2]}, "x")),
+					Data: exact(hx.KVHex([]string{"x=" + f[3]}, "x")), Err: f[4] == "1"}
+				b, err := enc.Encode(m)
+				if err != nil {
+					return "encerr"
+				}
+				fr, err := codec.NewPomeloPacketEncoder().Encode(packet.Data, b)
+				if err != nil {
+					return "encerr"
+				}
+				all = append(all, fr...)
+			}
+			cut, _ := hx.KV(ws, "cut")
+			frames, end := readStream(cutStream(all, cut))
+			dec := codec.NewPomeloPacketDecoder()
+			type held struct {
+				m   *message.Message
+				bad string
+			}
+			var hs []held
+			for _, fr := range frames {
+				ps, err := dec.Decode(fr)
+				if err != nil {
+					hs = append(hs, held{bad: "bad"})
+					continue
+				}
+				for _, p := range ps {
+					if p.Type != packet.Data {
+						hs = append(hs, held{bad: fmt.Sprintf("p%d", p.Type)})
+						continue
+					}
+					m, err := message.Decode(p.Data)
+					if err != nil {
+						hs = append(hs, held{bad: "m=err"})
+						continue
+					}
+					hs = append(hs, held{m: m})
+				}
+			}
+			var sb strings.Builder
+			sb.WriteString("ok")
+			for _, h := range hs {
+				if h.m == nil {
+					sb.WriteString(" " + h.bad)
+					continue
+				}
+				fmt.Fprintf(&sb, " m=%d:%d:%s:%s:%d", h.m.Type, uint64(h.m.ID), hx.Hex([]byte(h.m.Route)), hx.Hex(h.m.Data), hx.B2i(h.m.Err))
+			}
+			return sb.String() + " end=" + end
+		})
+	case "rtd":
+		// the process-global dictionary grows between Encode and Decode
+		return hx.Guard(func() string {
+			m := &message.Message{Type: message.Type(hx.KVInt(ws, "typ")), ID: uint(hx.KVU64(ws, "id")),
+				Route: string(hx.KVHex(ws, "route")), Data: exact(hx.KVHex(ws, "data")), Err: hx.KVInt(ws, "err") == 1}
+			b, err := (&message.MessagesEncoder{DataCompression: hx.KVInt(ws, "comp") == 1}).Encode(m)
+			if err != nil {
+				return "err"
+			}
+			d := "ok"
+			if err := message.SetDictionary(map[string]uint16{string(hx.KVHex(ws, "key")): uint16(hx.KVInt(ws, "code"))}); err != nil {
+				d = "dup"
+			}
+			return "ok " + hx.Hex(b) + " | " + d + " | " + doDecode(b)
+		})
+	case "enc2":
+		// Encode is handed the SAME *Message twice (a caller that retries or broadcasts one object):
+		// with DataCompression the first call replaces message.Data by the deflated bytes
+		return hx.Guard(func() string {
+			m := &message.Message{Type: message.Type(hx.KVInt(ws, "typ")), ID: uint(hx.KVU64(ws, "id")),
+				Route: string(hx.KVHex(ws, "route")), Data: exact(hx.KVHex(ws, "data")), Err: hx.KVInt(ws, "err") == 1}
+			enc := &message.MessagesEncoder{DataCompression: hx.KVInt(ws, "comp") == 1}
+			b1, err := enc.Encode(m)
+			if err != nil {
+				return "err"
+			}
+			b1 = exact(b1)
+			b2, err := enc.Encode(m)
+			if err != nil {
+				return "ok " + hx.Hex(b1) + " | err"
+			}
+			return "ok " + hx.Hex(b1) + " | ok " + hx.Hex(b2) + " | " + doDecode(b2)
+		})
+	case "crl":
+		// the decoder's second caller: pomelonet/client.readPackets accumulates socket reads in ONE bytes.Buffer,
+		// hands buf.Bytes() to Decode and drops what was consumed; the packets of earlier rounds are still queued
+		// (packetChan) while later reads are written into the same buffer
+		return hx.Guard(func() string {
+			var all []byte
+			for _, w := range ws[1:] {
+				if !strings.HasPrefix(w, "p=") {
+					continue
+				}
+				parts := strings.SplitN(w[2:], ":", 2)
+				var t int
+				fmt.Sscanf(parts[0], "%d", &t)
+				b, err := codec.NewPomeloPacketEncoder().Encode(packet.Type(t), hx.KVHex([]string{"x=" + parts[1]}, "x"))
+				if err != nil {
+					return "encerr"
+				}
+				all = append(all, b...)
+			}
+			cut, _ := hx.KV(ws, "cut")
+			fc := &fragConn{}
+			for _, f := range cutStream(all, cut) {
+				if len(f) > 0 && len(f) < 1024 { // one conn.Read (1024-byte scratch) per fragment
+					fc.frags = append(fc.frags, exact(f))
+				} else if len(f) >= 1024 {
+					return "bad-op"
+				}
+			}
+			rounds := len(fc.frags)
+			read := pclient.VerifReadLoop(fc)
+			var queued []*packet.Packet
+			var first strings.Builder
+			first.WriteString("ok")
+			for i := 0; i < rounds; i++ {
+				ps, err := read()
+				if err != nil {
+					first.WriteString(" readerr")
+					break
+				}
+				for _, p := range ps {
+					fmt.Fprintf(&first, " p=%d:%s", p.Type, hx.Hex(p.Data))
+				}
+				queued = append(queued, ps...)
+			}
+			return first.String() + " | " + showPackets(queued)
+		})
+	case "sscr":
+		return hx.Guard(func() string {
+			e := getSessEnv()
+			enc := &message.MessagesEncoder{DataCompression: hx.KVInt(ws, "comp") == 1}
+			frames := [][]byte{}
+			for _, w := range ws[1:] {
+				switch {
+				case strings.HasPrefix(w, "hs="):
+					frames = append(frames, e.frame(packet.Handshake, hx.KVHex([]string{"x=" + w[3:]}, "x")))
+				case w == "ack":
+					frames = append(frames, e.frame(packet.HandshakeAck, nil))
+				case w == "hb":
+					frames = append(frames, e.frame(packet.Heartbeat, nil))
+				case strings.HasPrefix(w, "f="):
+					frames = append(frames, exact(hx.KVHex([]string{"x=" + w[2:]}, "x")))
+				case strings.HasPrefix(w, "m="):
+					f := strings.Split(w[2:], ":")
+					if len(f) != 6 {
+						return "bad-op"
+					}
+					var typ int
+					var id uint64
+					fmt.Sscanf(f[0], "%d", &typ)
+					fmt.Sscanf(f[1], "%d", &id)
+					m := &message.Message{Type: message.Type(typ), ID: uint(id), Route: string(hx.KVHex([]string{"x=" + f[2]}, "x")),
+						Data: exact(hx.KVHex([]string{"x=" + f[3]}, "x")), Err: f[4] == "1"}
+					b, err := enc.Encode(m)
+					if err != nil {
+						return "encerr"
+					}
+					fr := e.frame(packet.Data, b)
+					if fr == nil {
+						return "encerr"
+					}
+					frames = append(frames, fr)
+				}
+			}
+			return e.stageScript(frames)
 		})
 	case "sess":
 		return hx.Guard(func() string { return getSessEnv().stage(hx.KVHex(ws, "data")) })
@@ -747,6 +1016,9 @@ func trimKey(k string) string { return strings.Trim(k, blanks) }
 // (corpus ops included), so that multi-entry calls can be made duplicate-free
 func (g *gen) note(op, obs string) {
 	ws := hx.Words(op)
+	if len(ws) > 0 && ws[0] == "rtd" && strings.Contains(obs, " | ok | ") {
+		obs = "ok"
+	}
 	if len(ws) == 0 || obs != "ok" {
 		return
 	}
@@ -763,6 +1035,8 @@ func (g *gen) note(op, obs string) {
 	switch ws[0] {
 	case "dict":
 		add(hx.KVHex(ws, "route"), hx.KVInt(ws, "code"))
+	case "rtd":
+		add(hx.KVHex(ws, "key"), hx.KVInt(ws, "code"))
 	case "dictm":
 		for _, w := range ws[1:] {
 			if parts := strings.SplitN(strings.TrimPrefix(w, "e="), ":", 2); strings.HasPrefix(w, "e=") && len(parts) == 2 {
@@ -869,6 +1143,285 @@ func (g *gen) framesFor() []byte {
 		all = append(all, b...)
 	}
 	return all
+}
+
+// chainOp: several messages sent one after the other on one connection (most with payload compression and
+// compressible payloads of different content and similar size, so that a recycled output buffer would be
+// overwritten in place), the stream cut into fragments
+func (g *gen) chainOp() string {
+	t := g.t
+	n := 2 + t.R.Intn(4)
+	comp := 1
+	if t.R.Intn(5) == 0 {
+		comp = 0
+	}
+	var sb strings.Builder
+	fmt.Fprintf(&sb, "mchain comp=%d", comp)
+	gz := 0
+	for i := 0; i < n; i++ {
+		typ := t.R.Intn(4)
+		id := ids[t.R.Intn(len(ids))]
+		var route []byte
+		switch t.R.Intn(4) {
+		case 0:
+			if len(g.routes) > 0 {
+				route = g.routes[t.R.Intn(len(g.routes))]
+			}
+		case 1:
+			route = []byte("chat.room.say")
+		default:
+			route = t.Bytes(t.R.Intn(12))
+		}
+		var data []byte
+		switch t.R.Intn(5) {
+		case 0:
+			data = t.Bytes(t.R.Intn(40))
+		default:
+			data = make([]byte, t.Pick(40, 64, 64, 100, 200, 300, 700))
+			base := byte('a' + 3*i + t.R.Intn(2))
+			for j := range data {
+				data[j] = base + byte(j%3)
+			}
+		}
+		defl, _ := compression.DeflateData(data)
+		if back, err := compression.InflateData(defl); err != nil || string(back) != string(data) {
+			t.Count("ASSUMPTION-BROKEN.zlib")
+		}
+		if comp == 1 && len(defl) < len(data) {
+			gz++
+		}
+		fmt.Fprintf(&sb, " m=%d:%d:%s:%s:%d:%s", typ, id, hx.Hex(route), hx.Hex(data), t.R.Intn(2), hx.Hex(defl))
+	}
+	if gz >= 2 {
+		t.Count("mchain.gzipped>=2")
+	}
+	cut := ""
+	switch t.R.Intn(4) {
+	case 0:
+	case 1:
+		cut = fmt.Sprintf("every:%d", t.Pick(1, 3, 7, 64, 536))
+	default:
+		var cs []string
+		for i := 0; i < 1+t.R.Intn(6); i++ {
+			cs = append(cs, fmt.Sprint(1+t.R.Intn(400)))
+		}
+		cut = strings.Join(cs, ",")
+	}
+	return sb.String() + " cut=" + cut
+}
+
+// rtdOp: a message is encoded, the dictionary gains an entry (half of the time for the very route of the message,
+// which was spelled out on the wire), then the bytes are decoded
+func (g *gen) rtdOp() string {
+	t := g.t
+	op, _ := g.msgOp("rtd")
+	ws := hx.Words(op)
+	route := string(hx.KVHex(ws, "route"))
+	key, code := g.freshKey(nil, nil)
+	printable := true
+	for i := 0; i < len(route); i++ {
+		if route[i] < 0x21 || route[i] > 0x7e {
+			printable = false // keys stay inside the ASCII range on which TrimSpace is modelled
+		}
+	}
+	if t.R.Intn(2) == 0 {
+		route = "chat.room.say"
+		if t.R.Intn(2) == 0 {
+			route = fmt.Sprintf("late.route.%d", t.R.Intn(1000))
+		}
+		op = strings.Replace(op, " route="+hx.Hex(hx.KVHex(ws, "route"))+" ", " route="+hx.Hex([]byte(route))+" ", 1)
+		printable = true
+	}
+	if t.R.Intn(3) != 0 && printable && !g.hasR[route] && len(route) < 40 {
+		key = g.pad() + route + g.pad()
+		t.Count("rtd.own-route-enters-dictionary")
+	}
+	return fmt.Sprintf("%s key=%s code=%d", op, hx.Hex([]byte(key)), code)
+}
+
+// enc2Op: one message object encoded twice
+func (g *gen) enc2Op() string {
+	op, data := g.msgOp("enc2")
+	defl, _ := compression.DeflateData(data)
+	defl2, _ := compression.DeflateData(defl)
+	return op + " defl2=" + hx.Hex(defl2)
+}
+
+// crlOp: frames for the client-side read loop, cut at explicit positions (every fragment 1..1000 bytes)
+func (g *gen) crlOp() string {
+	t := g.t
+	n := 1 + t.R.Intn(6)
+	var sb strings.Builder
+	sb.WriteString("crl")
+	total := 0
+	var starts []int
+	for i := 0; i < n; i++ {
+		sz := t.Pick(0, 1, 3, 8, 20, 20, 33, 70, 70, 200)
+		starts = append(starts, total)
+		total += 4 + sz
+		fmt.Fprintf(&sb, " p=%d:%s", 1+t.R.Intn(5), hx.Hex(t.Bytes(sz)))
+	}
+	cutSet := map[int]bool{}
+	switch t.R.Intn(5) {
+	case 0, 1: // one frame per read
+		for _, st := range starts[1:] {
+			cutSet[st] = true
+		}
+		t.Count("crl.cut.frames")
+	case 2: // a read ends inside a header or a body
+		for _, st := range starts {
+			cutSet[st+1+t.R.Intn(6)] = true
+		}
+		t.Count("crl.cut.inside")
+	case 3:
+		for i := 0; i < 1+t.R.Intn(8); i++ {
+			cutSet[1+t.R.Intn(total)] = true
+		}
+		t.Count("crl.cut.random")
+	default: // several frames per read
+		for _, st := range starts[1:] {
+			if t.R.Intn(2) == 0 {
+				cutSet[st] = true
+			}
+		}
+		t.Count("crl.cut.some-frames")
+	}
+	for p := 1000; p < total; p += 1000 { // no fragment longer than the client's 1024-byte scratch
+		cutSet[p] = true
+	}
+	var pos []int
+	for p := range cutSet {
+		if p > 0 && p < total {
+			pos = append(pos, p)
+		}
+	}
+	sort.Ints(pos)
+	var cs []string
+	for _, p := range pos {
+		cs = append(cs, fmt.Sprint(p))
+	}
+	return sb.String() + " cut=" + strings.Join(cs, ",")
+}
+
+var hsBodies = []string{hsJSON, `{}`, `{"sys":{},"user":{"a":1}}`, ` {"sys":null} `, `null`, `[]`, `{"sys":`, ``, `{"sys":5}`, `x`, `{"user":[1,2]}`, `7`, `"s"`}
+
+func hsAccepted(b []byte) bool { return json.Unmarshal(b, &session.HandshakeData{}) == nil }
+
+// scriptOp: a whole session as the client's byte frames.  Either the protocol's own order (handshake, ack, then
+// messages) or anything else: data before the ack, ack without handshake, a bad handshake, heartbeats, several
+// packets in one frame (what the WS acceptor hands over is whatever the client sent), malformed messages
+func (g *gen) scriptOp() string {
+	t := g.t
+	comp := t.R.Intn(2)
+	var toks []string
+	ok := map[string]bool{}
+	noteHs := func(b []byte) {
+		if hsAccepted(b) {
+			ok[hx.Hex(b)] = true
+		}
+	}
+	msgTok := func(i int) string {
+		var route []byte
+		switch t.R.Intn(3) {
+		case 0:
+			if len(g.routes) > 0 {
+				route = g.routes[t.R.Intn(len(g.routes))]
+			}
+		case 1:
+			route = []byte("chat.room.say")
+		default:
+			route = t.Bytes(t.R.Intn(12))
+		}
+		data := t.Bytes(t.R.Intn(30))
+		if t.R.Intn(2) == 0 {
+			data = make([]byte, t.Pick(40, 64, 100, 300))
+			for j := range data {
+				data[j] = byte('a'+3*i) + byte(j%3)
+			}
+		}
+		defl, _ := compression.DeflateData(data)
+		return fmt.Sprintf("m=%d:%d:%s:%s:%d:%s", t.R.Intn(4), ids[t.R.Intn(len(ids))], hx.Hex(route), hx.Hex(data), t.R.Intn(2), hx.Hex(defl))
+	}
+	// a message body for a raw frame: gzip bit cleared (the model's inflate table has no entry for it)
+	rawBody := func() []byte {
+		var b []byte
+		switch t.R.Intn(4) {
+		case 0:
+			b = g.validEncoding()
+		case 1:
+			b = g.validEncoding()
+			b = b[:t.R.Intn(len(b)+1)]
+		case 2:
+			b = g.varintStress()
+		default:
+			b = t.Bytes(t.R.Intn(12))
+		}
+		if len(b) > 0 {
+			b[0] &^= 0x10
+		}
+		return b
+	}
+	if t.R.Intn(3) == 0 { // the protocol's own order
+		t.Count("sscr.regular")
+		hs := []byte(hsBodies[t.R.Intn(3)])
+		noteHs(hs)
+		toks = append(toks, "hs="+hx.Hex(hs), "ack")
+		for i := 0; i < 1+t.R.Intn(4); i++ {
+			toks = append(toks, msgTok(i))
+		}
+	} else {
+		t.Count("sscr.irregular")
+		switch t.R.Intn(4) { // half of the irregular scripts reach Working first
+		case 0:
+			toks = append(toks, "ack")
+		case 1:
+			hs := []byte(hsBodies[t.R.Intn(3)])
+			noteHs(hs)
+			toks = append(toks, "hs="+hx.Hex(hs), "ack")
+		}
+		for i := 0; i < 1+t.R.Intn(6); i++ {
+			switch t.R.Intn(8) {
+			case 0:
+				hs := []byte(hsBodies[t.R.Intn(len(hsBodies))])
+				noteHs(hs)
+				toks = append(toks, "hs="+hx.Hex(hs))
+			case 1, 2:
+				toks = append(toks, "ack")
+			case 3:
+				toks = append(toks, "hb")
+			case 4:
+				toks = append(toks, msgTok(i))
+			case 5: // several packets in one frame
+				var all []byte
+				for k := 0; k < 1+t.R.Intn(4); k++ {
+					typ := packet.Type(1 + t.R.Intn(5))
+					var body []byte
+					switch typ {
+					case packet.Handshake:
+						body = []byte(hsBodies[t.R.Intn(len(hsBodies))])
+						noteHs(body)
+					case packet.Data:
+						body = rawBody()
+					}
+					b, _ := codec.NewPomeloPacketEncoder().Encode(typ, body)
+					all = append(all, b...)
+				}
+				t.Count("sscr.multi-packet-frame")
+				toks = append(toks, "f="+hx.Hex(all))
+			case 6: // malformed frame
+				toks = append(toks, "f="+hx.Hex(g.badStream()))
+			default: // one Data packet with a raw body
+				b, _ := codec.NewPomeloPacketEncoder().Encode(packet.Data, rawBody())
+				toks = append(toks, "f="+hx.Hex(b))
+			}
+		}
+	}
+	var oks []string
+	for k := range ok {
+		oks = append(oks, k)
+	}
+	sort.Strings(oks)
+	return fmt.Sprintf("sscr comp=%d hsok=%s %s", comp, strings.Join(oks, ","), strings.Join(toks, " "))
 }
 
 func (g *gen) route() []byte {
@@ -1121,7 +1674,7 @@ func TestRun(t *testing.T) {
 		obs := exec(op)
 		h.Emit(op, obs)
 		g.note(op, obs)
-		if strings.HasPrefix(op, "sess ") {
+		if strings.HasPrefix(op, "sess ") || strings.HasPrefix(op, "sscr ") {
 			// the next op lets a session's reader goroutine loose on client bytes; if that kills the
 			// process the staged input must already be on disk
 			h.Flush()
@@ -1186,6 +1739,27 @@ func TestRun(t *testing.T) {
 	}
 	h.Stats["exhaustive.sess.len<=1"] = 257
 	h.Stats["sess.flag-x-tails"] = 256 * len(tails)
+	// whole-session scripts: the regular order; data before the ack (ignored); ack without handshake; bad handshake;
+	// handshake+ack+data in ONE frame; a bad message after a good one; nothing at all
+	{
+		hj := hx.Hex([]byte(hsJSON))
+		m1 := "m=0:7:" + hx.Hex([]byte("a.b.c")) + ":0102:0:"
+		m2 := "m=1:0:" + hx.Hex([]byte("chat.room.say")) + ":" + hx.Hex(zpayload(100)) + ":0:" + func() string { d, _ := compression.DeflateData(zpayload(100)); return hx.Hex(d) }()
+		for _, sc := range []string{
+			"sscr comp=1 hsok=" + hj + " hs=" + hj + " ack " + m1 + " " + m2 + " hb " + m1,
+			"sscr comp=0 hsok=" + hj + " hs=" + hj + " " + m1 + " ack " + m1,
+			"sscr comp=0 hsok= ack " + m1,
+			"sscr comp=0 hsok= hs=" + hx.Hex([]byte(`{"sys":`)) + " ack " + m1,
+			"sscr comp=0 hsok=7b7d f=010000027b7d0200000004000003020061 " + m1,
+			"sscr comp=0 hsok= ack " + m1 + " f=04000002ffff " + m1,
+			"sscr comp=0 hsok= ack f=0400000106 f=040000020005",
+			"sscr comp=0 hsok=",
+			"sscr comp=0 hsok= f= f=05000000 ack f=06000000 " + m1,
+		} {
+			run(sc)
+			run("sgo")
+		}
+	}
 	// one decoder for two calls: the first result must still read the same after the second call
 	run("pdec2 a=0400000401020304 b=04000004fffefdfc")
 	run("pdec2 a=0400000401020304 b=")
@@ -1201,6 +1775,23 @@ func TestRun(t *testing.T) {
 	run("gnm frag=06000001,00")             // bad type
 	run("gnm frag=")                        // nothing at all
 	run("gnm frag=0400,0001,,7f,030000,00") // empty fragment, then a frame with empty body
+	// several compressed messages in a row, all held until the stream is read; the client-side read loop
+	za, zb, zc := zpayload(200), []byte(strings.Repeat("xyz", 60)), []byte(strings.Repeat("0123", 50))
+	dz := func(b []byte) string { d, _ := compression.DeflateData(b); return hx.Hex(d) }
+	run(fmt.Sprintf("mchain comp=1 cut= m=0:1:%s:%s:0:%s m=3:0:%s:%s:0:%s m=2:300:%s:%s:1:%s", hx.Hex([]byte("a.b.c")), hx.Hex(za), dz(za),
+		hx.Hex([]byte("chat.room.say")), hx.Hex(zb), dz(zb), "", hx.Hex(zc), dz(zc)))
+	run(fmt.Sprintf("mchain comp=0 cut=every:5 m=1:0:%s:%s:0:%s m=0:128:%s:%s:1:%s", hx.Hex([]byte("x")), hx.Hex(za), dz(za), hx.Hex([]byte("room.enter")), "", dz(nil)))
+	{
+		d1, _ := compression.DeflateData(za)
+		d2, _ := compression.DeflateData(d1)
+		run(fmt.Sprintf("enc2 typ=3 id=0 route=%s data=%s err=0 comp=1 defl=%s defl2=%s", hx.Hex([]byte("big.payload")), hx.Hex(za), hx.Hex(d1), hx.Hex(d2)))
+		run(fmt.Sprintf("enc2 typ=0 id=9 route=%s data=%s err=0 comp=0 defl=%s defl2=%s", hx.Hex([]byte("a.b.c")), hx.Hex(za), hx.Hex(d1), hx.Hex(d2)))
+	}
+	run("rtd typ=1 id=0 route=" + hx.Hex([]byte("late.route")) + " data=0506 err=0 comp=0 defl= key=" + hx.Hex([]byte(" late.route\n")) + " code=777")
+	run("rtd typ=0 id=5 route=" + hx.Hex([]byte("late.route")) + " data=0506 err=1 comp=0 defl= key=" + hx.Hex([]byte("other.route")) + " code=777")
+	run("crl p=4:" + hx.Hex([]byte("first-frame-payload")) + " p=4:" + hx.Hex([]byte("second-frame-payload")) + " p=3: p=4:" + hx.Hex([]byte("third")) + " cut=23,47,51")
+	run("crl p=4:0102030405060708090a p=4:0b0c cut=2,9,15")
+	run("crl p=4:0102030405060708090a p=4:0b0c cut=")
 	// payload compression beyond the 16 MiB mark (the packet limit bounds the DEFLATED body only)
 	zs := []string{"zrt n=1000 mode=raw", "zrt n=16777217 mode=raw", "zrt n=17825792 mode=msg"}
 	if h.Thorough() {
@@ -1212,7 +1803,7 @@ func TestRun(t *testing.T) {
 	}
 	n := hx.EnvInt("VERIF_N", 4000)
 	for i := 0; i < n; i++ {
-		switch h.R.Intn(14) {
+		switch h.R.Intn(17) {
 		case 0, 1, 2:
 			op, _ := g.msgOp("rt")
 			h.Count("op.rt")
@@ -1288,6 +1879,24 @@ func TestRun(t *testing.T) {
 				h.Count("op.srt")
 				run(g.streamOp())
 			}
+		case 14: // the whole path for several messages in a row; one message object encoded twice
+			if k := h.R.Intn(6); k == 0 {
+				h.Count("op.enc2")
+				run(g.enc2Op())
+			} else if k == 1 {
+				h.Count("op.rtd")
+				run(g.rtdOp())
+			} else {
+				h.Count("op.mchain")
+				run(g.chainOp())
+			}
+		case 16: // a whole session script
+			h.Count("op.sscr")
+			run(g.scriptOp())
+			run("sgo")
+		case 15: // the client-side read loop (accumulating read buffer) in front of the packet decoder
+			h.Count("op.crl")
+			run(g.crlOp())
 		case 12:
 			if h.R.Intn(5) == 0 {
 				h.Count("op.dict")
